@@ -16,6 +16,7 @@ pub const REPLAY: &[(&str, fn(&mut vsrc::ReplaySrc))] = &[
     ("c36_coin_step", |s| c36::coin_step(s)),
     ("c36_message_step", |s| c36::message_step(s)),
     ("c36_to_spend_step", |s| c36::to_spend_step(s)),
+    ("c36_event_flags", |s| c36::event_flags_step(s)),
 ];
 
 pub fn noop() {}
